@@ -815,8 +815,39 @@ fn c17_composite(threads_form: bool, nops: usize) {
   e::cover("c17-composite-path-complete");
 }
 
+/// C01 at the level of closure subscribers: `.on_complete(c).on_error(e).subscribe(n)`
+fn c01_closures(k: usize) {
+  let unary = all_unary_ops();
+  let op = pick_op(&unary);
+  let p = draw_params(op, k as u32, 10);
+  let kind = e::choose(2);
+  e::note(format!("{} -> on_complete -> on_error -> subscribe(closure) ; hot kind {}", show_p(op, &p), kind));
+  let probe = fresh_probe(); // used as the log of the three closures
+  let o = cat::build(op, cat::hot_kind(0, kind), &p);
+  let (mut pn, pc, pe) = (probe, probe, probe);
+  let _u = o
+    .on_complete(move || Observer::<Val, Val>::complete(pc))
+    .on_error(move |x: Val| Observer::<Val, Val>::error(pe, x))
+    .subscribe(move |v: Val| Observer::<Val, Val>::next(&mut pn, v));
+  let mut evs = vec![];
+  for _ in 0..k {
+    let ev = match e::choose(3) {
+      0 => Ev::Next(Val::var()),
+      1 => Ev::Complete,
+      _ => Ev::Err(Val::var()),
+    };
+    e::note(world::show_ev(&ev));
+    cat::feed_hot(0, &ev);
+    evs.push(ev);
+  }
+  let chain = vec![(op, p)];
+  verify_against(&probe.events(), &chain, &Script::from_events(&evs), &format!("closure-subscriber/{}", op_name(op)));
+  e::cover("c01-closures-path-complete");
+}
+
 pub fn harnesses_c17() -> Vec<HarnessDef> {
   vec![
+    HarnessDef { id: "c01_closures", props: vec!["C01"], about: "closure-level subscriber (on_complete + on_error + subscribe(next)) below every unary operator: next*, then at most one of the completion / error callbacks, then nothing; vs the list oracle", bounds: |t| format!("{} arbitrary events incl. post-terminal", if t { 5 } else { 4 }), f: Box::new(|t| c01_closures(if t { 5 } else { 4 })), budget_quick: 1_000_000, budget_thorough: 20_000_000, thorough_only: false, sampled: true },
     HarnessDef { id: "c17_composite", props: vec!["C17"], about: "MultiSubscription: histories of append / unsubscribe (through a clone) / is_closed / retain / child finishes: late additions torn down at once, closed => every child closed, closed is monotone once unsubscribed", bounds: |t| format!("{} operations, 3 children", if t { 7 } else { 5 }), f: Box::new(|t| c17_composite(false, if t { 7 } else { 5 })), budget_quick: 1_000_000, budget_thorough: 20_000_000, thorough_only: false, sampled: true },
     HarnessDef { id: "c17_composite_threads", props: vec!["C17"], about: "MultiSubscriptionThreads, same histories", bounds: |t| format!("{} operations, 3 children", if t { 7 } else { 5 }), f: Box::new(|t| c17_composite(true, if t { 7 } else { 5 })), budget_quick: 1_000_000, budget_thorough: 20_000_000, thorough_only: false, sampled: true },
   ]
